@@ -52,8 +52,11 @@ struct Recipe {
 	// memory class
 	// memory class: 1-2 memories (read latency 1), each read port followed by logic and 1-2 registers marked allowRetimingBackward
 	// with reset value x enable in all combinations; the memory detector retimes them backward into the read port
-	struct MemReg { int logic = 0; uint64_t k = 0; std::string rst; int en = -1; /* index into enPins or -1 */ };
-	struct MemDesc { bool fullWrite = true; std::vector<MemReg> regs; };
+	struct MemReg { int logic = 0; uint64_t k = 0; std::string rst; int en = -1, en2 = -1; /* indices into enPins or -1: enable = en & en2 (nested ENIF) */ };
+	// latency: required read latency (1..2; with 2 every output has two movable registers in series). mayReject: the registers behind the read port
+	// do not all have the same enable (nested / different): the library may refuse such a design (DesignError) = rejected, not judged; an accepted
+	// design must equal the design as written in every cycle.
+	struct MemDesc { bool fullWrite = true; size_t latency = 1; bool mayReject = false; std::vector<MemReg> regs; };
 	size_t memAw = 3, memW = 6; std::vector<MemDesc> mems;
 };
 
@@ -457,13 +460,19 @@ Recipe genMemory(Rng &rng) {
 	for (size_t i = 0; i < nStall; i++) { r.ins.push_back(InPin{.w = 0, .stall = true}); r.enPins.push_back((int) r.ins.size() - 1); }
 	for (size_t m = 0; m < nMem; m++) {
 		Recipe::MemDesc d; d.fullWrite = rng.chance(2, 3);
-		size_t nRegs = 1 + (rng.chance(1, 3) ? 1 : 0);
-		int en = nStall ? (int) rng.below(nStall + 1) - 1 : -1; // registers behind one read port share the enable (different ones are a design error)
+		bool mixed = nStall > 0 && rng.chance(2, 5);            // fan-out to registers with equal / nested / different enables
+		size_t nRegs = mixed ? 2 + rng.below(2) : 1 + (rng.chance(1, 3) ? 1 : 0);
+		d.latency = rng.chance(1, 4) ? 2 : 1;
+		int en = nStall ? (int) rng.below(nStall + 1) - 1 : -1; // default: registers behind one read port share the enable
 		for (size_t i = 0; i < nRegs; i++) {
 			Recipe::MemReg g; g.logic = (int) rng.below(5); g.k = rng.next() & maskOf(r.memW); g.en = en;
+			if (mixed) { unsigned c = (unsigned) rng.below(nStall == 2 ? 5 : 2); // none | a | a&b | b | b&a
+				g.en = c == 0 ? -1 : (c == 1 || c == 2) ? 0 : 1; g.en2 = c == 2 ? 1 : c == 4 ? 0 : -1; }
 			if (rng.chance(2, 3)) g.rst = bitsOf(rng.chance(1, 4) ? 0 : rng.next() & maskOf(r.memW), r.memW);
 			d.regs.push_back(g);
 		}
+		for (auto &g : d.regs) { auto key = [](const Recipe::MemReg &x) { int a = x.en, b = x.en2; if (b >= 0 && b < a) std::swap(a, b); if (a < 0) std::swap(a, b); return std::pair<int, int>(a, b); };
+			if (key(g) != key(d.regs[0])) d.mayReject = true; }
 		r.mems.push_back(d);
 	}
 	return r;
@@ -477,8 +486,8 @@ std::string toString(const Recipe &r, uint64_t k, uint64_t sub) {
 	for (size_t i = 0; i < r.ins.size(); i++) o << "in " << i << " w=" << r.ins[i].w << " stall=" << r.ins[i].stall << '\n';
 	for (size_t g = 0; g < r.groups.size(); g++) { o << "grp " << g; for (auto &m : r.groups[g].mem) o << ' ' << m.pin << ':' << (m.rst.empty() ? "-" : m.rst); o << '\n'; }
 	if (r.cls == "memory") { size_t j = 0;
-		for (size_t m = 0; m < r.mems.size(); m++) { o << "mem " << m << " aw=" << r.memAw << " w=" << r.memW << " fullwrite=" << r.mems[m].fullWrite << '\n';
-			for (auto &g : r.mems[m].regs) { o << "memreg mem=" << m << " out=" << j << " logic=" << g.logic << " k=" << g.k << " rst=" << (g.rst.empty() ? "-" : g.rst) << " en=" << (g.en < 0 ? -1 : r.enPins[g.en]) << '\n';
+		for (size_t m = 0; m < r.mems.size(); m++) { o << "mem " << m << " aw=" << r.memAw << " w=" << r.memW << " fullwrite=" << r.mems[m].fullWrite << " latency=" << r.mems[m].latency << " mayreject=" << r.mems[m].mayReject << '\n';
+			for (auto &g : r.mems[m].regs) { o << "memreg mem=" << m << " out=" << j << " logic=" << g.logic << " k=" << g.k << " rst=" << (g.rst.empty() ? "-" : g.rst) << " en=" << (g.en < 0 ? -1 : r.enPins[g.en]) << " en2=" << (g.en2 < 0 ? -1 : r.enPins[g.en2]) << '\n';
 				o << "out " << j++ << " step=0 w=" << r.memW << " dep=0 ffd=0 ureg=0\n"; } } }
 	for (size_t i = 0; i < r.steps.size(); i++) { const Step &s = r.steps[i];
 		o << "step " << i << ' ' << s.kind << " w=" << s.w << " a=" << s.a << " b=" << s.b << " c=" << s.c << " k=" << s.k << " rst=" << (s.rst.empty() ? "-" : s.rst)
@@ -517,15 +526,16 @@ void buildMemory(const Recipe &r, Variant var, BuiltDesign &res) {
 	for (size_t m = 0; m < nMem; m++) {
 		Memory<UInt> mem(size_t(1) << r.memAw, BitWidth(r.memW));
 		mem.setPowerOnStateZero();
-		mem.setType(MemType::MEDIUM, 1);
+		mem.setType(MemType::MEDIUM, r.mems[m].latency);
 		UInt rd = mem[std::get<UInt>(pins[m])];
 		if (r.mems[m].fullWrite) { IF (we) mem[waddr] = data; } else { IF (we & (waddr == m)) mem[waddr] = data; }
 		for (auto &g : r.mems[m].regs) {
 			UInt c = vh::constU(bitsOf(g.k, r.memW));
 			UInt v = g.logic == 0 ? UInt(rd) : g.logic == 1 ? UInt(rd ^ c) : g.logic == 2 ? UInt(rd ^ data) : g.logic == 3 ? UInt(~rd) : UInt(rd + c);
 			{
-				std::optional<EnableScope> es; if (g.en >= 0) es.emplace(std::get<Bit>(pins[r.enPins[g.en]]));
-				v = regOpt(v, g.rst, {.allowRetimingBackward = true});
+				std::optional<EnableScope> es, es2; if (g.en >= 0) es.emplace(std::get<Bit>(pins[r.enPins[g.en]]));
+				if (g.en2 >= 0) es2.emplace(std::get<Bit>(pins[r.enPins[g.en2]]));
+				for (size_t l = 0; l < r.mems[m].latency; l++) v = regOpt(v, g.rst, {.allowRetimingBackward = true});
 			}
 			auto p = pinOut(v).setName("out" + std::to_string(j++)); res.b.outPins.push_back(p.node()); res.b.outWidths.push_back(r.memW);
 		}
